@@ -1,13 +1,13 @@
 #!/bin/bash
 # usage: verify_mutant.sh <seed-id>  -- confirms in a scratch worktree: tests pass with the patch, demo FAILs with it, PASSes without
-id=$1; d=/verif/seeded/$id; wt=/tmp/wt_verify
+id=$1; d=/verif/seeded/$id; wt=${WT:-/tmp/wt_verify}
 cd $wt && git checkout -q -- . && git clean -fdq
 git apply $d/patch.diff || { echo "$id: PATCH DOES NOT APPLY"; exit 2; }
 cp $d/demo.py $wt/demo.py
 sed -i "s#/tmp/wt_[A-Za-z0-9_]*#$wt#g" $wt/demo.py
 t=$(PYTHONPATH=$wt/src /venv/bin/python -m pytest -q -p no:cacheprovider tests 2>&1 | tail -1)
-PYTHONPATH=$wt/src timeout 600 /venv/bin/python demo.py > /tmp/demo_with.out 2>&1; rc_with=$?
+PYTHONPATH=$wt/src timeout 600 /venv/bin/python demo.py > /tmp/demo_with_$id.out 2>&1; rc_with=$?
 git checkout -q -- src
-PYTHONPATH=$wt/src timeout 600 /venv/bin/python demo.py > /tmp/demo_without.out 2>&1; rc_without=$?
+PYTHONPATH=$wt/src timeout 600 /venv/bin/python demo.py > /tmp/demo_without_$id.out 2>&1; rc_without=$?
 rm -f demo.py
 echo "$id: tests='$t' demo_with_patch_rc=$rc_with demo_without_patch_rc=$rc_without"
